@@ -169,6 +169,8 @@ func kindsOf(c *xfCase) string {
 	return strings.Join(ks, "+") + "/" + rep + "/" + pre
 }
 
+var libExtractMu sync.Mutex
+
 func runExtractCase(carBin string, c *xfCase, base string, form int) (string, string, string) {
 	sand, _ := os.MkdirTemp(base, "vh-xf-")
 	defer os.RemoveAll(sand)
@@ -247,7 +249,9 @@ func runExtractCase(carBin string, c *xfCase, base string, form int) (string, st
 	var err error
 	if form == 5 { // the library entry point, in this process
 		var log bytes.Buffer
+		libExtractMu.Lock() // one call at a time: package-level state in the library (if a change adds any) must not bring the harness down
 		err = carlib.ExtractFromFile(context.Background(), carPath, filepath.Join(w, "out"), &log)
+		libExtractMu.Unlock()
 		outb = log.Bytes()
 	} else {
 		outb, err = cmd.CombinedOutput()
